@@ -52,4 +52,5 @@ def correspond(streams, hooks=None):
                                    "ops": streams[si][: k - a], "model": m, "impl": impl_out[k]})
                 break
     return {"evaluations": len(flat) - len(streams), "mismatches": mismatches,
+            "outcomes": [o["outcome"] for o in impl_out],
             "findings": findings, "model_s": model_s, "streams": len(streams)}
